@@ -112,14 +112,14 @@ fn one(ctx: &mut Ctx, cl: &Clauses, perm: &[usize], semantic: bool) {
     let order = VarOrder::new(&perm.iter().map(|x| VarLabel::new(*x as u64)).collect::<Vec<_>>());
     let exp = clauses_tt(cl, n);
     let info = json!({"clauses": clauses_json(cl), "order": perm, "store": if semantic { "semantic64" } else { "standard" }});
-    rsdd::verif::set_unique_table_capacity(Some(64));
+    crate::caps::set_unique(Some(64));
     if semantic {
         let b = SemanticDecisionNNFBuilder::<{ primes::U64_LARGEST }>::new(order);
-        rsdd::verif::set_unique_table_capacity(None);
+        crate::caps::set_unique(None);
         check(ctx, &b, &cnf, n, &exp, &info);
     } else {
         let b = StandardDecisionNNFBuilder::new(order);
-        rsdd::verif::set_unique_table_capacity(None);
+        crate::caps::set_unique(None);
         check(ctx, &b, &cnf, n, &exp, &info);
     }
 }
